@@ -39,7 +39,10 @@ import (
 	discoveryv1 "k8s.io/api/discovery/v1"
 	metav1 "k8s.io/apimachinery/pkg/apis/meta/v1"
 	"k8s.io/apimachinery/pkg/runtime"
+	gatewayv1 "sigs.k8s.io/gateway-api/apis/v1"
 
+	networkingclient "istio.io/client-go/pkg/apis/networking/v1"
+	"istio.io/istio/pilot/pkg/features"
 	"istio.io/istio/pilot/pkg/model"
 	txds "istio.io/istio/pilot/test/xds"
 	"istio.io/istio/pkg/config"
@@ -85,6 +88,35 @@ var proxySpecs = []proxySpec{
 	}},
 }
 
+var waypointProxySpecs = []proxySpec{
+	{"waypoint", func() *model.Proxy {
+		l := map[string]string{"gateway.networking.k8s.io/gateway-name": waypointName, "gateway.istio.io/managed": "istio.io-mesh-controller"}
+		return &model.Proxy{
+			Type: model.Waypoint, ID: "waypoint-a.default", ConfigNamespace: "default", DNSDomain: "default.svc.cluster.local",
+			IPAddresses: []string{waypointIP}, Labels: l, Locality: &corev3.Locality{Region: "r1", Zone: "z1"},
+			Metadata: &model.NodeMetadata{Namespace: "default", Labels: l, ClusterID: "Kubernetes"},
+		}
+	}},
+	proxySpecs[0],
+}
+
+func (c permCase) proxies() []proxySpec {
+	if c.prof == "waypoint" {
+		return waypointProxySpecs
+	}
+	return proxySpecs
+}
+
+// setProfile switches the process-wide feature flags of the profile on; the returned function restores them.
+func (c permCase) setProfile() func() {
+	if c.prof != "waypoint" {
+		return func() {}
+	}
+	a, w := features.EnableAmbient, features.EnableAmbientWaypoints
+	features.EnableAmbient, features.EnableAmbientWaypoints = true, true
+	return func() { features.EnableAmbient, features.EnableAmbientWaypoints = a, w }
+}
+
 // orderedTypes are generated in the generator's own order; namedTypes answer a requested name set.
 var permTypes = []string{"CDS", "EDS", "LDS", "RDS", "ECDS", "NDS"}
 
@@ -96,6 +128,7 @@ type permCase struct {
 	n    string
 	seed uint64
 	mesh string // name of a hand-written witness mesh (witness.go); "" = the generated mesh of `seed`
+	prof string // "" (sidecars + router) or "waypoint" (ambient on, waypoint proxy)
 	k, r int
 	keep []int // nil = all
 }
@@ -112,6 +145,8 @@ func parsePermCase(f []string) permCase {
 			c.seed, _ = strconv.ParseUint(kv[1], 10, 64)
 		case "mesh":
 			c.mesh = kv[1]
+		case "profile":
+			c.prof = kv[1]
 		case "K":
 			c.k = atoi(kv[1])
 		case "R":
@@ -141,12 +176,19 @@ func (c permCase) line() []string {
 	if c.mesh != "" {
 		src = "mesh=" + c.mesh
 	}
-	return []string{"case", c.n, "perm", src, "K=" + strconv.Itoa(c.k), "R=" + strconv.Itoa(c.r), "keep=" + keep}
+	l := []string{"case", c.n, "perm", src, "K=" + strconv.Itoa(c.k), "R=" + strconv.Itoa(c.r), "keep=" + keep}
+	if c.prof != "" {
+		l = append(l, "profile="+c.prof)
+	}
+	return l
 }
 
 func (c permCase) allObjects() []obj {
 	if c.mesh != "" {
 		return witnessMesh(c.mesh)
+	}
+	if c.prof == "waypoint" {
+		return waypointMesh(c.seed)
 	}
 	return buildMesh(c.seed).objs
 }
@@ -175,6 +217,9 @@ func genPerm(seed uint64, n int, outp string) {
 	}
 	for i := 0; i < n; i++ {
 		c := permCase{n: strconv.Itoa(i), seed: root.Next() % 1000000007, k: k, r: r}
+		if i%6 == 5 {
+			c.prof = "waypoint"
+		}
 		out.Line(c.line()...)
 	}
 }
@@ -182,8 +227,9 @@ func genPerm(seed uint64, n int, outp string) {
 // ---------------------------------------------------------------- building one world
 
 type world struct {
-	f *failer
-	s *txds.FakeDiscoveryServer
+	f       *failer
+	s       *txds.FakeDiscoveryServer
+	proxies []proxySpec
 }
 
 func (w *world) close() { w.f.done() }
@@ -201,6 +247,12 @@ func createLateK8s(s *txds.FakeDiscoveryServer, o runtime.Object) error {
 		_, err = kc.CoreV1().Pods(x.Namespace).Create(ctx, x, metav1.CreateOptions{})
 	case *discoveryv1.EndpointSlice:
 		_, err = kc.DiscoveryV1().EndpointSlices(x.Namespace).Create(ctx, x, metav1.CreateOptions{})
+	case *gatewayv1.Gateway:
+		_, err = s.KubeClient().GatewayAPI().GatewayV1().Gateways(x.Namespace).Create(ctx, x, metav1.CreateOptions{})
+	case *networkingclient.ServiceEntry:
+		_, err = s.KubeClient().Istio().NetworkingV1().ServiceEntries(x.Namespace).Create(ctx, x, metav1.CreateOptions{})
+	case *networkingclient.WorkloadEntry:
+		_, err = s.KubeClient().Istio().NetworkingV1().WorkloadEntries(x.Namespace).Create(ctx, x, metav1.CreateOptions{})
 	default:
 		err = fmt.Errorf("unsupported late object %T", o)
 	}
@@ -218,6 +270,9 @@ func buildWorld(objs []obj, early int) *world {
 		} else {
 			k8s = append(k8s, o.k8s.DeepCopyObject())
 		}
+		if o.twin != nil {
+			k8s = append(k8s, o.twin.DeepCopyObject())
+		}
 	}
 	w.s = txds.NewFakeDiscoveryServer(w.f, txds.FakeOptions{Configs: cfgs, KubernetesObjects: k8s})
 	quiet.Silence()
@@ -228,6 +283,11 @@ func buildWorld(objs []obj, early int) *world {
 			}
 		} else if err := createLateK8s(w.s, o.k8s.DeepCopyObject()); err != nil {
 			panic(fmt.Sprintf("late create %s: %v", o.desc, err))
+		}
+		if o.twin != nil {
+			if err := createLateK8s(w.s, o.twin.DeepCopyObject()); err != nil {
+				panic(fmt.Sprintf("late create twin of %s: %v", o.desc, err))
+			}
 		}
 	}
 	return w
@@ -268,10 +328,53 @@ func (w *world) fingerprintLines() []string {
 			sh.RLock()
 			for k, eps := range sh.Shards {
 				for _, e := range eps {
-					lines = append(lines, fmt.Sprintf("ep %s %s %s %v %d %s %s %v", ns, svc, k, e.Addresses, e.EndpointPort, e.ServicePortName, e.Locality.Label, e.HealthStatus))
+					// every field of the endpoint that generation reads (labels carry e.g. the tunnel capability,
+					// which the Kubernetes registry fills in from the Pod when the Pod arrives after the slice)
+					lines = append(lines, fmt.Sprintf("ep %s %s %s %v %d %s %s %v %v %s %s %s %s %s %s %s %d %s %v", ns, svc, k, e.Addresses, e.EndpointPort,
+						e.ServicePortName, e.Locality.Label, e.HealthStatus, e.Labels, e.ServiceAccount, e.Network, e.TLSMode, e.Namespace,
+						e.WorkloadName, e.HostName, e.SubDomain, e.LbWeight, e.NodeName, e.SendUnhealthyEndpoints))
 				}
 			}
 			sh.RUnlock()
+		}
+	}
+	if features.EnableAmbient && env.AmbientIndexes != nil {
+		// what the ambient index (asynchronous, krt) knows about every endpoint address: generation asks it
+		// whether the workload behind an address is HBONE capable
+		addrs := sets.New[string]()
+		for _, m := range env.EndpointIndex.Shardz() {
+			for _, sh := range m {
+				sh.RLock()
+				for _, eps := range sh.Shards {
+					for _, e := range eps {
+						for _, a := range e.Addresses {
+							addrs.Insert(e.Network.String() + "/" + a)
+						}
+					}
+				}
+				sh.RUnlock()
+			}
+		}
+		for _, a := range sets.SortedList(addrs) {
+			infos, _ := env.AmbientIndexes.AddressInformation(sets.New(a))
+			for _, wl := range model.ExtractWorkloadsFromAddresses(infos) {
+				b, _ := proto.MarshalOptions{Deterministic: true}.Marshal(wl.Workload)
+				h := sha256.Sum256(b)
+				lines = append(lines, "amb "+a+" "+wl.Workload.GetUid()+" "+hex.EncodeToString(h[:6]))
+			}
+		}
+	}
+	for _, ps := range w.proxies {
+		if p := ps.mk(); p.Type == model.Waypoint && env.AmbientIndexes != nil {
+			p.SetServiceTargets(env.ServiceDiscovery)
+			key := model.WaypointKeyForProxy(p)
+			lines = append(lines, fmt.Sprintf("wpkey %v %v", key.Hostnames, key.Addresses))
+			for _, si := range env.AmbientIndexes.ServicesForWaypoint(key) {
+				lines = append(lines, "wpsvc "+si.ResourceName()+" "+fmt.Sprint(len(si.Service.GetPorts())))
+			}
+			for _, wi := range env.AmbientIndexes.WorkloadsForWaypoint(key) {
+				lines = append(lines, "wpwl "+wi.ResourceName())
+			}
 		}
 	}
 	sort.Strings(lines)
@@ -432,7 +535,7 @@ func (w *world) snapshot(prev *model.PushContext, rep int) (snapshot, *model.Pus
 		})
 	}
 	out := snapshot{}
-	for _, ps := range proxySpecs {
+	for _, ps := range w.proxies {
 		p := setupProxy(w, ps.mk(), push)
 		cds := generate(w, p, push, "CDS", nil)
 		out[ps.name+":CDS"] = cds
@@ -516,17 +619,30 @@ func insertionOrder(c permCase, objs []obj, k int) ([]obj, int) {
 
 func runCase(c permCase, keepRaw bool) (cr *caseRun) {
 	objs := c.objects()
+	defer c.setProfile()()
 	cr = &caseRun{digests: map[string][]string{}, nobjs: len(objs)}
 	want := ""
 	var wantLines []string
 	for k := 0; k < c.k; k++ {
 		order, early := insertionOrder(c, objs, k)
 		w := buildWorld(order, early)
+		w.proxies = c.proxies()
 		fp, ok := w.settle(want, 8*time.Second)
 		if !ok {
 			cr.unsettled = fmt.Sprintf("build=%d fingerprint=%s want=%s diff: %s", k, fp, want, lineDiff(wantLines, w.fingerprintLines()))
 			w.close()
 			return cr
+		}
+		if q := atoi(os.Getenv("C17_QUIET_MS")); q > 0 {
+			// confirmation runs: the state must also survive a long quiet period unchanged
+			for i := 0; i < 5; i++ {
+				time.Sleep(time.Duration(q) * time.Millisecond)
+				fp2, ok2 := w.settle(want, 8*time.Second)
+				if ok2 && fp2 == fp {
+					break
+				}
+				fp = fp2
+			}
 		}
 		if k == 0 {
 			want = fp
